@@ -13,6 +13,7 @@ import ConjureVerif.Model.EnumUnion
 import ConjureVerif.Model.DoubleOps
 import ConjureVerif.Model.Endpoint
 import ConjureVerif.Model.Call
+import ConjureVerif.Model.GenOrder
 /-
 Line-protocol driver.  One operation per input line: `<property> <op> <args…>`; one output line per
 operation.  Imports models only (no Mathlib, no proofs), so it links as a native executable.
@@ -30,6 +31,7 @@ def dispatch (line : String) : String :=
   | "C10" :: rest => EnumUnion.handle rest
   | "C14" :: rest => DoubleOps.handle rest
   | "C04" :: rest => Call.handle rest
+  | "C20" :: rest => GenOrder.handle rest
   | "C19" :: rest => Endpoint.handle rest
   | "C09" :: rest => Endpoint.handle rest
   | "C17" :: rest => ErrorM.handle rest
